@@ -462,26 +462,34 @@ func (w *World) rulePubKeyCacheProvenance(rule string) {
 				w.viol(rule, key, st.Pos(), "the public-key cache of `"+obj+"` is assigned `"+shortCond(render(val))+"`, a key that is not built here from that private key: PublicKey() would not be scalar·generator of this key in every call history")
 				return
 			}
-			// how is the key material of the new object filled?
+			// how is the key material of the new object filled? (followed through a local the point is first computed into)
 			derived := false
 			detail := ""
-			for _, ref := range *al.Referrers() {
-				f2, ok := ref.(*ssa.FieldAddr)
-				if !ok {
-					continue
+			var fromAddr func(addr ssa.Value, d int)
+			fromAddr = func(addr ssa.Value, d int) {
+				if d > 3 || addr.Referrers() == nil {
+					return
 				}
-				for _, r2 := range *f2.Referrers() {
+				for _, r2 := range *addr.Referrers() {
 					switch x := r2.(type) {
 					case *ssa.Store:
+						if x.Addr != addr {
+							continue
+						}
 						// ECDSA: goPubKey := &obj.goPrKey.PublicKey
-						if x.Addr == ssa.Value(f2) && strings.HasPrefix(render(x.Val), "&"+obj+".") && strings.HasSuffix(render(x.Val), ".PublicKey") {
-							derived = true
-							detail = "public part embedded in the same private key"
+						if strings.HasPrefix(render(x.Val), "&"+obj+".") && strings.HasSuffix(render(x.Val), ".PublicKey") {
+							derived, detail = true, "public part embedded in the same private key"
+						}
+						// a value copied from a local: how was the local filled?
+						if ld, ok := stripConv(x.Val).(*ssa.UnOp); ok && ld.Op == token.MUL {
+							if l2, ok := ld.X.(*ssa.Alloc); ok {
+								fromAddr(l2, d+1)
+							}
 						}
 					case ssa.CallInstruction:
 						// BLS: generatorScalarMultG2(&new.point, &obj.scalar) / C.G2_mult_gen_to_affine
 						args := x.Common().Args
-						if len(args) == 2 && stripConv(args[0]) == ssa.Value(f2) {
+						if len(args) == 2 && stripConv(args[0]) == addr {
 							isGen := false
 							if callee := x.Common().StaticCallee(); callee != nil {
 								if cn, isC := cgoName(callee); isC && cn == "G2_mult_gen_to_affine" {
@@ -491,11 +499,17 @@ func (w *World) rulePubKeyCacheProvenance(rule string) {
 								}
 							}
 							if isGen && strings.HasPrefix(render(args[1]), "&"+obj+".") {
-								derived = true
-								detail = "generator multiple of the same key's scalar"
+								derived, detail = true, "generator multiple of the same key's scalar"
 							}
 						}
+					case *ssa.ChangeType:
+						fromAddr(x, d+1)
 					}
+				}
+			}
+			for _, ref := range *al.Referrers() {
+				if f2, ok := ref.(*ssa.FieldAddr); ok {
+					fromAddr(f2, 0)
 				}
 			}
 			w.check(derived, rule, key, st.Pos(), "cache filled with the key derived from the same private key ("+detail+")", "the public-key cache of `"+obj+"` is filled with an object whose key material is not derived from `"+obj+"` itself")
